@@ -99,7 +99,8 @@ QBIN = ["add", "sub", "mul", "div"]
 ZUN = ["pos", "neg", "com", "abs", "sqrt"]
 QUN = ["pos", "neg", "abs"]
 FUN = ["pos", "neg", "abs", "sqrt", "trunc", "floor", "ceil"]
-def binops(ty): return ZBIN if ty == "z" else QBIN
+FBIN = QBIN + ["hypot"]
+def binops(ty): return ZBIN if ty == "z" else FBIN if ty == "f" else QBIN
 def unops(ty): return ZUN if ty == "z" else QUN if ty == "q" else FUN
 
 # ---------------------------------------------------------------- statements
@@ -124,7 +125,8 @@ class Stmt:
         if s.kind == "init": ts.add(s.ty)
         return ts
     def describe(s): return s.cxx()[0] if s.kind != "io" else s.text
-    def lean(s): return "f" not in s.types() and s.kind not in ("mixed", "incr", "io")
+    def isf(s): return "f" in s.types()
+    def lean(s): return s.kind not in ("mixed", "io") and (s.kind != "incr" or s.isf())
     def depth(s): return max([t.depth for t in s.trees()] + [0]) + (1 if s.kind in ("compound", "compoundsh", "mixed") else 0)
     def ops(s):
         o = []
@@ -173,6 +175,7 @@ class Stmt:
         if s.kind == "compoundsh": return "sh= %s %s %d n" % (s.op, s.tgt[0], s.tgt[1])
         if s.kind == "cmp": return "cmp %s %s %s" % (s.op, s.a.pre(), s.b.pre())
         if s.kind == "sgn": return "sgn " + s.a.pre()
+        if s.kind == "incr": return "incr %s %s %d" % (s.op, s.tgt[0], s.tgt[1])
         raise ValueError(s.kind)
 
 # ---------------------------------------------------------------- C reference code
@@ -224,7 +227,16 @@ class CRef:
             else:
                 n, ty = s.ev(x); ops.append(("obj", s.conv(n, ty, T)))
         t = s.tmp(T)
-        if ops[0][0] == "obj" and ops[1][0] == "obj":
+        if e.op == "hypot":
+            # no C function: the defining sequence of __gmp_hypot_function (g*g into a temporary of the destination's precision, then
+            # the other operand squared, the sum, the root)
+            (ka, a), (kb, b) = ops
+            if ka != "obj": (ka, a), (kb, b) = (kb, b), (ka, a)
+            t1 = s.tmp(T); s.code.append("mpf_mul(%s, %s, %s);" % (t1, a, a))
+            if kb == "obj": s.code.append("mpf_mul(%s, %s, %s);" % (t, b, b))
+            else: s.code += ["mpf_set_%s(%s, %s);" % (kb, t, b.cxx()), "mpf_mul(%s, %s, %s);" % (t, t, t)]
+            s.code += ["mpf_add(%s, %s, %s);" % (t, t, t1), "mpf_sqrt(%s, %s);" % (t, t)]
+        elif ops[0][0] == "obj" and ops[1][0] == "obj":
             s.code.append("%s(%s, %s, %s);" % (CFN[(T, e.op)], t, ops[0][1], ops[1][1]))
         else:
             s.code += mpf_builtin(e.op, t, ops)
@@ -479,9 +491,11 @@ static void pr_f(mpf_srcptr f) {
   long e = f->_mp_exp;
   while (n > 0 && p[0] == 0) { p++; n--; }
   /* value = mantissa * 2^(64*(exp - n)) */
-  if (n == 0) { printf(" 0 0"); return; }
+  long n0 = f->_mp_size < 0 ? -(long) f->_mp_size : f->_mp_size;      /* with prec and |size| the four tokens determine the object limb for limb */
+  if (n == 0) { printf(" 0 0 %lx %lx", (unsigned long) f->_mp_prec, (unsigned long) n0); return; }
   printf(" "); if (f->_mp_size < 0) printf("-"); pr_limbs(p, n);
-  long s = e - n; if (s < 0) printf(" -%lx", (unsigned long) -s); else printf(" %lx", (unsigned long) s);
+  long s = e - n0; if (s < 0) printf(" -%lx", (unsigned long) -s); else printf(" %lx", (unsigned long) s);
+  printf(" %lx %lx", (unsigned long) f->_mp_prec, (unsigned long) n0);
 }
 static void pr_bytes(const std::string &s) { printf(" s"); for (size_t i = 0; i < s.size(); i++) printf("%02x", (unsigned char) s[i]); }
 static void setenv_vs(const VS *v) {
@@ -577,9 +591,11 @@ def emit_program(cases):
 
 def op_line(st, vs):
     """the Lean driver op line for (statement, value set)"""
-    toks = ["cxx_eval", "s" + st.pre().encode().hex()]
+    toks = ["cxx_evalf" if st.isf() else "cxx_eval", "s" + st.pre().encode().hex()]
     toks += [hx(v) for v in vs.z]
     for n, d in vs.q: toks += [hx(n), hx(d)]
+    if st.isf():
+        for m, e, p in vs.f: toks += [hx(m), hx(e), hx(p)]
     for b in st.builtins():
         v = vs.b[b.slot]
         toks.append(hx(dbits(v)) if b.kind == "d" else hx(v))
@@ -687,7 +703,7 @@ def leafshapes(T, bis):
 
 def depth1_shapes(T, bis):
     out = []
-    for op in binops(T) if T != "f" else QBIN:
+    for op in binops(T):
         for a, b in leafshapes(T, bis): out.append(Bin(op, a, b))
     for op in unops(T): out.append(Un(op, Hole(T)))
     for op in ("shl", "shr"):
@@ -721,6 +737,7 @@ def rand_shape(rng, T, depth, bis):
         return rand_shape(rng, ty, d, bis)
     ops = ZBIN if T == "z" else QBIN
     op = rng.choice(ops)
+    if T == "f" and rng.random() < 0.08: op = "hypot"
     big = rand_shape(rng, T if rng.random() < 0.7 or T == "z" else rng.choice([t for t in ("z", "q", "f") if RANK[t] <= RANK[T]]), depth - 1, bis)
     other = child(rng.randrange(0, depth), True)
     a, b = (big, other) if rng.random() < 0.5 else (other, big)
@@ -735,7 +752,8 @@ def welltyped(t):
     if isinstance(t, Un): return t.op in unops(t.ty) and welltyped(t.a)
     if isinstance(t, Sh): return welltyped(t.a)
     if t.a.ty is None and t.b.ty is None: return False
-    if t.ty != "z" and t.op not in QBIN: return False
+    if t.op == "hypot" and t.ty != "f": return False            # hypot exists for mpf results only
+    if t.ty != "z" and t.op not in (FBIN if t.ty == "f" else QBIN): return False
     return welltyped(t.a) and welltyped(t.b)
 
 def statements(rng, tier):
@@ -1255,7 +1273,7 @@ static void io_istream2(const InRow *ic, int n, int ty) {
 
 # ---------------------------------------------------------------- corpus (always-run regression statements)
 def parse_corpus_line(line):
-    """`O0|O2 | stmt in prefix syntax, built-ins as i:long u:unsigned_long d:double (suffix ! = literal) | z0 z1 z2 z3 | q0 q1 q2 (n/d) | b0 b1 …` (hex)
+    """`O0|O2 | stmt in prefix syntax, built-ins as i:long u:unsigned_long d:double (suffix ! = literal) | z0 z1 z2 z3 | q0 q1 q2 (n/d) | b0 b1 … | f0 f1 f2 (mantissa:exp2:precbits)` (hex)
     -> (opt, Stmt, VS)"""
     parts = [p.strip() for p in line.split("|")]
     opt, src, zs, qs = parts[0], parts[1].split(), parts[2].split(), parts[3].split()
@@ -1279,7 +1297,7 @@ def parse_corpus_line(line):
         t = tok()
         if re.fullmatch(r"[zqf]\d", t): return Var(t[0], int(t[1]))
         if t in ZUN + FUN: return Un(t, tree())
-        if t in ZBIN: a = opnd(); b = opnd(); return Bin(t, a, b)
+        if t in ZBIN or t == "hypot": a = opnd(); b = opnd(); return Bin(t, a, b)
         if t in ("shl", "shr"): a = tree(); n = bi(tok()); return Sh(t, a, n)
         raise ValueError("corpus syntax: " + t)
     h = tok()
@@ -1288,11 +1306,16 @@ def parse_corpus_line(line):
     elif h == "op=": op = tok(); ty = tok(); i = int(tok()); st = Stmt("compound", op=op, tgt=(ty, i), r=opnd(), tags=("corpus",))
     elif h == "cmp": op = tok(); a = opnd(); b = opnd(); st = Stmt("cmp", op=op, a=a, b=b, tags=("corpus",))
     elif h == "sgn": st = Stmt("sgn", a=tree(), tags=("corpus",))
+    elif h == "sh=": op = tok(); ty = tok(); i = int(tok()); st = Stmt("compoundsh", op=op, tgt=(ty, i), n=bi(tok()), tags=("corpus",))
+    elif h == "incr": op = tok(); ty = tok(); i = int(tok()); st = Stmt("incr", op=op, tgt=(ty, i), tags=("corpus",))
     else: raise ValueError("corpus syntax: " + h)
     if opt == "O2": st.tags.add("const")
     z = [hexv(t) for t in zs]; q = []
     for t in qs: n, d = t.split("/"); q.append((hexv(n), hexv(d)))
-    vs = VS(z, q, [(0, 0, 64)] * NF, [b.value for b in st.builtins()])
+    f = [(0, 0, 64)] * NF
+    if len(parts) > 5 and parts[5]:          # mpf variables: mantissa:binary exponent:precision in bits (hex)
+        f = [tuple(hexv(x) for x in t.split(":")) for t in parts[5].split()]
+    vs = VS(z, q, f, [b.value for b in st.builtins()])
     return opt, st, vs
 
 def corpus_cases(directory):
